@@ -353,3 +353,82 @@ func refInducedCounts(m *MG) (paths []int, cycles []int) {
 	}
 	return paths, cycles
 }
+
+// refEdgeChromaticIndex: chromatic index by Vizing's theorem (Delta or Delta+1) with an exhaustive search for a
+// proper Delta-edge-colouring: edges ordered by a BFS over edges from a vertex of maximum degree, colours tried under
+// the symmetry-breaking rule "a new colour only if all smaller colours are in use", a bit mask of used colours per
+// vertex. Independent of the line-graph route of refChromaticIndex (used for n <= 7); practical for n = 8.
+func refEdgeChromaticIndex(m *MG) int {
+	n := m.n
+	es := egFromMG(m).Edges
+	if len(es) == 0 {
+		return 0
+	}
+	delta, top := 0, 0
+	for v := 0; v < n; v++ {
+		if d := m.deg(v); d > delta {
+			delta, top = d, v
+		}
+	}
+	if len(es) > delta*(n/2) {
+		return delta + 1 // overfull: more edges than Delta perfect-matching-sized colour classes can hold
+	}
+	// order: edges at `top` first, then edges sharing a vertex with an earlier edge
+	order := make([][2]int, 0, len(es))
+	used := make([]bool, len(es))
+	touched := make([]bool, n)
+	touched[top] = true
+	for len(order) < len(es) {
+		progress := false
+		for i, e := range es {
+			if !used[i] && (touched[e[0]] || touched[e[1]]) {
+				used[i] = true
+				order = append(order, e)
+				touched[e[0]], touched[e[1]] = true, true
+				progress = true
+			}
+		}
+		if !progress {
+			for i, e := range es {
+				if !used[i] {
+					touched[e[0]] = true
+					break
+				}
+			}
+		}
+	}
+	at := make([]uint32, n)
+	var rec func(i, maxUsed int) bool
+	rec = func(i, maxUsed int) bool {
+		if i == len(order) {
+			return true
+		}
+		a, b := order[i][0], order[i][1]
+		busy := at[a] | at[b]
+		lim := maxUsed + 1
+		if lim >= delta {
+			lim = delta - 1
+		}
+		for c := 0; c <= lim; c++ {
+			if busy>>uint(c)&1 == 1 {
+				continue
+			}
+			at[a] |= 1 << uint(c)
+			at[b] |= 1 << uint(c)
+			mu := maxUsed
+			if c > mu {
+				mu = c
+			}
+			if rec(i+1, mu) {
+				return true
+			}
+			at[a] &^= 1 << uint(c)
+			at[b] &^= 1 << uint(c)
+		}
+		return false
+	}
+	if rec(0, -1) {
+		return delta
+	}
+	return delta + 1
+}
